@@ -91,6 +91,7 @@ func (r ownRev) String() string {
 type ownCase struct {
 	Policy    string
 	Limit     int32
+	Settled   bool // status counters are an exact census already (the reconcile has no status to write)
 	ScaleIn   bool // spec.replicas is 2: the pod at ordinal 2 is condemned (and a pinned pod is the one at ordinal 0)
 	Pods      [3]ownPod
 	Revs      [3]ownRev // slot 0: data T1 (the set's template), 1: T2, 2: T3
@@ -104,7 +105,7 @@ type ownCase struct {
 }
 
 func (c ownCase) String() string {
-	return fmt.Sprintf("%s lim=%d scaleIn=%v pods=%v revs=%v equalnums=%v reversed=%v pinB=%v pinTerminating=%v allAtB=%v api=%s paused=%v", c.Policy, c.Limit, c.ScaleIn, c.Pods, c.Revs, c.EqualNums, c.Reversed, c.PinB, c.PinTerm, c.AllAtB, c.API, c.Paused)
+	return fmt.Sprintf("%s lim=%d settledStatus=%v scaleIn=%v pods=%v revs=%v equalnums=%v reversed=%v pinB=%v pinTerminating=%v allAtB=%v api=%s paused=%v", c.Policy, c.Limit, c.Settled, c.ScaleIn, c.Pods, c.Revs, c.EqualNums, c.Reversed, c.PinB, c.PinTerm, c.AllAtB, c.API, c.Paused)
 }
 
 func podNameFor(shape string, i int) string {
@@ -225,6 +226,31 @@ func (c ownCase) Build(w *world.World) *world.State {
 		set.Status.CurrentRevision = names[1]
 	}
 	set.Status.ObservedGeneration = 1
+	if c.Settled {
+		zero := int32(0)
+		set.Status.CollisionCount = &zero
+		for _, k := range world.SortedKeys(st.API.Pods) {
+			p := st.API.Pods[k]
+			if ref := oracle.ControllerOf(p); ref == nil || ref.UID != set.UID || p.Namespace != set.Namespace {
+				continue
+			}
+			if _, ok := oracle.OrdinalOf("web", p.Name); !ok || p.Labels["app"] != "web" {
+				continue
+			}
+			set.Status.Replicas++
+			if oracle.IsReady(p) {
+				set.Status.ReadyReplicas++
+			}
+			if p.DeletionTimestamp == nil {
+				if oracle.PodRev(p) == set.Status.CurrentRevision {
+					set.Status.CurrentReplicas++
+				}
+				if oracle.PodRev(p) == set.Status.UpdateRevision {
+					set.Status.UpdatedReplicas++
+				}
+			}
+		}
+	}
 	// a second set with an overlapping selector lives in the same namespace
 	other := gen.Spec{Name: "other", Replicas: 1, Policy: "Parallel", Strategy: gen.RU(0), Limit: 10, Template: 1}.Build()
 	st.API.Sets["other"] = other
@@ -365,6 +391,15 @@ func ownGrid(apis []string, policies []string, paused bool, podDepth int, thorou
 										if !emit(c) {
 											return
 										}
+										c.ScaleIn = false
+									}
+									if lim != 10 && (pinMode == 0 || pinMode == 1) {
+										// a settled set (the pass after a rollout completed): the status is an exact census
+										// already, and whatever became unused in the meantime is still to be trimmed
+										c.Settled = true
+										if !emit(c) {
+											return
+										}
 									}
 								}
 							}
@@ -386,7 +421,7 @@ func ownCheck(prop string, apis, policies []string, paused bool, differential bo
 	if prop == "C10" {
 		depth = 2
 	}
-	rep.Rule = fmt.Sprintf("ownership snapshot enumeration: set web (r=3, %v, RU p=0) plus a second set with the same selector; (P) pods at 3 ordinals, up to %d of them replaced by any cell of owner{this,none,other UID,other kind,non-controller ref} x labels{match,no match} x name{S-i,S-x,other-i,S-i-j,S-0i (leading zero)} x terminating, also without the pod-name label, in another namespace, and re-created behind the cache (API copy with another UID), or absent; (R) full product of three revision slots (data T1=the set's template, T2, T3) each absent or owner{this,none,other UID,other kind,built-in StatefulSet of the same name} x labels{selector,upgrade marker,both}, x revisionHistoryLimit{0,1,10} x pod-label pinning (none / one live pod (also with a scale-in under way: replicas 2, the pod at ordinal 2 condemned) / one terminating pod at another revision / all pods at another revision) x revision numbering (descending with age / all equal / reversed, i.e. a rollback pending); x API copy of the set %v; paused=%v. One real reconcile per snapshot. %s Non-trivial = at least one write or an error.", policies, depth, apis, paused, ruleText)
+	rep.Rule = fmt.Sprintf("ownership snapshot enumeration: set web (r=3, %v, RU p=0) plus a second set with the same selector; (P) pods at 3 ordinals, up to %d of them replaced by any cell of owner{this,none,other UID,other kind,non-controller ref} x labels{match,no match} x name{S-i,S-x,other-i,S-i-j,S-0i (leading zero)} x terminating, also without the pod-name label, in another namespace, and re-created behind the cache (API copy with another UID), or absent; (R) full product of three revision slots (data T1=the set's template, T2, T3) each absent or owner{this,none,other UID,other kind,built-in StatefulSet of the same name} x labels{selector,upgrade marker,both}, x revisionHistoryLimit{0,1,10} x pod-label pinning (none / one live pod (also with a scale-in under way: replicas 2, the pod at ordinal 2 condemned) / one terminating pod at another revision / all pods at another revision) x status (counters zero / an exact census already, i.e. nothing to write) x revision numbering (descending with age / all equal / reversed, i.e. a rollback pending); x API copy of the set %v; paused=%v. One real reconcile per snapshot. %s Non-trivial = at least one write or an error.", policies, depth, apis, paused, ruleText)
 	rep.Assumptions = apiAssumptions
 	deadline := explore.Deadline(100*time.Second, 15*time.Minute)
 	judge := monitorOf(prop)
@@ -503,6 +538,7 @@ func init() {
 		var n int64
 		type job struct {
 			own   *ownCase
+			warm  *ownCase // reconciled first by the same controller instance (same set, live in the API)
 			other *explore.Case
 		}
 		ch := make(chan job, 256)
@@ -514,6 +550,9 @@ func init() {
 				w := world.New()
 				for j := range ch {
 					if j.own != nil {
+						if j.warm != nil {
+							runOwnCase(rep, w, *j.warm, judge, false)
+						}
 						runOwnCase(rep, w, *j.own, judge, false)
 					} else {
 						explore.RunCase(rep, w, *j.other, judge)
@@ -554,6 +593,15 @@ func init() {
 							}
 							if !emitOwn(c) {
 								break
+							}
+							// the same right after the same controller has adopted orphans for the set while it was alive:
+							// what it learnt then must not stand in for the confirmation now
+							if api != "absent" {
+								warm := c
+								warm.API = "same"
+								n++
+								cc := c
+								ch <- job{own: &cc, warm: &warm}
 							}
 						}
 					}
